@@ -130,7 +130,7 @@ def _scratch_dir_with_distinct_job_ids(names):
 
 
 def e2e(argv_tail, files: dict[str, list[dict]], want_files=(), keep_dir=False, post=None, out_name="out.json",
-        in_dir=None):
+        in_dir=None, capture_log=False):
     """Run the real Acelyzer API in-process.  `files`: name -> list of input events (written as
     {"traceEvents": [...]}).  Returns dict(rc, error, events, other, outdir-files requested).
     `post(ace)`: optional callback evaluated after a run that did not raise (e.g.
@@ -155,12 +155,20 @@ def e2e(argv_tail, files: dict[str, list[dict]], want_files=(), keep_dir=False, 
         saved_argv = sys.argv
         sys.argv = ["acelyzer"]
         try:
-            with contextlib.redirect_stdout(io.StringIO()):
-                ace = Acelyzer(["-i", ",".join(paths), "-o", out, "-D", "0", *argv_tail])
-                aiulog.loglevel = -1
-                res["rc"] = ace.run()
-                if post is not None:
-                    res["post"] = post(ace)
+            logbuf = io.StringIO()
+            saved_level = aiulog.loglevel
+            try:
+                with contextlib.redirect_stdout(logbuf):
+                    ace = Acelyzer(["-i", ",".join(paths), "-o", out, "-D", "0", *argv_tail])
+                    # capture_log: the INFO lines of the run (statistics printed at drain) are returned as res["log"]
+                    aiulog.loglevel = aiulog.INFO if capture_log else -1
+                    res["rc"] = ace.run()
+                    if post is not None:
+                        res["post"] = post(ace)
+            finally:
+                if capture_log:
+                    res["log"] = logbuf.getvalue()
+                    aiulog.loglevel = saved_level
         except SystemExit as e:
             res["rc"] = e.code
             res["error"] = "SystemExit"
